@@ -710,7 +710,57 @@ def run_address_history(case, part):
             part.violation("C09/unsound/address-text-under-another-path", "address texts that differ as strings are reported equivalent under a path where they are not addresses of that family", dict(case, p=p, q=q), "different", "equivalent")
 
 
+# ---- V: the stix_version argument of both public calls ------------------------------------------------------------
+VERSION_PATTERNS = ["[a:b = 1]", "[a:b = 1] OR [a:b = 1]", "[a:c = 2 OR a:b = 1]", "[a:b = 1 OR a:c = 2]", "[a:EXISTS = 1]", "[a:b.EXISTS = 1]", "[a:EXISTS = 1] OR [a:EXISTS = 1]",
+                    "[a:b = 1] AND [a:EXISTS = 1]", "[a:EXISTS = 1] AND [a:b = 1]", "[a:b = 1] REPEATS 2 TIMES", "([a:b = 1]) REPEATS 2 TIMES"]
+VERSION_CLASSES = [{0, 1}, {2, 3}, {4, 6}, {5}, {7, 8}, {9, 10}]          # the answer expected among them under the grammar that accepts them all (2.0: EXISTS is an ordinary name)
+
+
+def run_versions(case, part):
+    """both calls with the version named (keyword and positional): every pattern of the 2.0 grammar is answered, a name that is a keyword of the other grammar included; find == pairwise;
+    patterns both grammars accept are answered as with the default"""
+    import stix2.equivalence.pattern as EP
+    env.reset()
+    texts = VERSION_PATTERNS
+    i = case["row"]
+    both = [k for k, t in enumerate(texts) if "EXISTS" not in t]
+    for ver, how in (("2.0", "keyword"), ("2.0", "positional"), ("2.1", "keyword")):
+        idx = list(range(len(texts))) if ver == "2.0" else both
+        if i not in idx:
+            continue
+        part.state(("V", texts[i], ver, how), nontrivial=True)
+        row = {}
+        for j in idx:
+            part.evaluations += 1
+            part.transitions += 1
+            c = {"kind": "versions", "row": i, "p": texts[i], "q": texts[j], "stix_version": ver, "how": how}
+            try:
+                r = EP.equivalent_patterns(texts[i], texts[j], stix_version=ver) if how == "keyword" else EP.equivalent_patterns(texts[i], texts[j], ver)
+            except Exception as e:
+                part.violation("C09/raises/%s/version-named" % type(e).__name__, "the equivalence test fails on patterns that are valid under the version named", c, "a boolean", str(e)[:100])
+                continue
+            row[j] = bool(r)
+            part.outcome("equivalent" if r else "different")
+            want = any(i in cl and j in cl for cl in VERSION_CLASSES)
+            if bool(r) != want:
+                part.violation("C09/version-named/%s" % ("unsound" if r else "documented-rewrite-not-recognised"), "the answer under a named version differs from the answer the same rewrite rules give", c, want, bool(r))
+        for form, make in (("list", lambda: [texts[j] for j in idx]), ("generator", lambda: (texts[j] for j in idx))):
+            part.evaluations += 1
+            part.transitions += 1
+            c = {"kind": "versions", "row": i, "p": texts[i], "stix_version": ver, "how": how, "form": form}
+            try:
+                got = list(EP.find_equivalent_patterns(texts[i], make(), stix_version=ver) if how == "keyword" else EP.find_equivalent_patterns(texts[i], make(), ver))
+            except Exception as e:
+                part.violation("C09/raises/%s/find_equivalent_patterns/version-named" % type(e).__name__, "find_equivalent_patterns fails on patterns that are valid under the version named", c, "a list", str(e)[:100])
+                continue
+            want = [texts[j] for j in idx if row.get(j)]
+            if sorted(got) != sorted(want):
+                part.violation("C09/find-vs-pairwise/version-named", "find_equivalent_patterns disagrees with equivalent_patterns under the same named version", c, want, got)
+
+
 def run_case(case, part):
+    if case["kind"] == "versions":
+        return run_versions(case, part)
     if case["kind"] == "address-history":
         return run_address_history(case, part)
     if case["kind"] == "row":
@@ -730,6 +780,8 @@ def replay(case, part):
     th = case.get("thorough", False)
     if case.get("kind") == "address-history":
         return run_address_history({"kind": "address-history", "row": case["row"], "order": case.get("order", 0)}, part)
+    if case.get("kind") == "versions":
+        return run_versions({"kind": "versions", "row": case["row"]}, part)
     if "rewrite" in case:
         rc = rewrite_cases(th)
         for i, (rule, p, q) in enumerate(rc):
@@ -870,6 +922,8 @@ def run(run):
         cases.append({"kind": "multitype", "row": i})
     for i in range(len(path_patterns())):
         cases.append({"kind": "paths", "row": i})
+    for i in range(len(VERSION_PATTERNS)):
+        cases.append({"kind": "versions", "row": i})
     for i in range(len(qualifier_patterns())):
         cases.append({"kind": "qualifiers", "row": i})
     # the same rewrite instances once more, each chunk after a warm-up of 600 ordinary comparisons in the same process: the answer must not depend on
